@@ -47,6 +47,11 @@ type floats map[uint64]struct{}
 
 func (f floats) add(v float64) {
 	if f != nil {
+		if math.IsNaN(v) {
+			// every NaN is written as the one token of floatTok (and prints as `null`)
+			f[0x7ff8000000000001] = struct{}{}
+			return
+		}
 		f[math.Float64bits(v)] = struct{}{}
 	}
 }
